@@ -3,15 +3,15 @@ package main
 // The rule sets of every claimed property (quick tier, and the additional rules of the
 // thorough tier). Kept in one table so that the claim texts in props.go stay readable.
 var propRuleTable = map[string][2][]string{
-	"C01": {{"R-MEMO-KEY", "R-EXHAUSTIVE", "R-UNFOLDED-POLARITY", "R-QUANTIFIER-LOOP", "R-MUST-CHECK", "R-FUNC-KEY", "R-PROTOCOL"}, {}},
+	"C01": {{"R-MEMO-KEY", "R-EXHAUSTIVE", "R-UNFOLDED-POLARITY", "R-QUANTIFIER-LOOP", "R-MUST-CHECK", "R-FUNC-KEY", "R-PROTOCOL", "R-POLARITY-COHERENT"}, {}},
 	"C02": {{"R-DUP-FIRST", "R-GC-PROPAGATES", "R-SUBST-CONTRA", "R-NAME-EQ"}, {}},
 	"C03": {{"R-COPY-PER-USE", "R-COPY-DEEP", "R-DUP-FIRST", "R-SPAWN-OWNERSHIP", "R-BINDERS", "R-NAME-EQ"}, {}},
 	"C04": {{"R-BINDERS", "R-SUBST-CONTRA", "R-NAME-EQ", "R-PROTOCOL", "R-EXHAUSTIVE"}, {}},
 	"C05": {{"R-AXIOM-EMPTY", "R-CONSUME-DELETES", "R-BRANCH-COPY", "R-STRUCT-GATES", "R-FRESH-BINDER", "R-CUT-SPLIT", "R-MULTI-CONTRACT", "R-MUST-CHECK", "R-CASE-EXACT", "R-MODE-TABLES"}, {}},
 	"C06": {{"R-INDEPENDENCE", "R-SHIFT-LEGAL", "R-MODE-TABLES", "R-UNSET-REJECTED"}, {}},
-	"C07": {{"R-MUST-CHECK", "R-CASE-EXACT", "R-QUANTIFIER-LOOP", "R-MEMO-KEY", "R-BRANCH-COPY", "R-FRESH-BINDER", "R-CUT-SPLIT", "R-FUNC-KEY"}, {}},
+	"C07": {{"R-MUST-CHECK", "R-CASE-EXACT", "R-QUANTIFIER-LOOP", "R-MEMO-KEY", "R-BRANCH-COPY", "R-FRESH-BINDER", "R-CUT-SPLIT", "R-FUNC-KEY", "R-POLARITY-COHERENT"}, {}},
 	"C08": {{"R-MEMO-KEY", "R-FIELD-COVERAGE", "R-QUANTIFIER-LOOP", "R-UNFOLD-GUARD", "R-CONTRACTIVE-GATE"}, {}},
-	"C09": {{"R-PHASE-STOP", "R-NO-DEFERRED-SUCCESS", "R-UNFOLDED-POLARITY", "R-ERR-BEFORE-USE", "R-UNFOLD-GUARD", "R-CONTRACTIVE-GATE", "R-UNSET-REJECTED"}, {}},
+	"C09": {{"R-PHASE-STOP", "R-NO-DEFERRED-SUCCESS", "R-UNFOLDED-POLARITY", "R-ERR-BEFORE-USE", "R-PANIC-INVENTORY", "R-EXHAUSTIVE", "R-UNFOLD-GUARD", "R-CONTRACTIVE-GATE", "R-UNSET-REJECTED"}, {}},
 	"C10": {{"R-DEAD-SET", "R-REC-COMPLETE", "R-MODE-UNIFORM", "R-CONTRACTIVE-GATE", "R-UNSET-REJECTED", "R-SHIFT-LEGAL"}, {}},
 	"C11": {{"R-LOOP-EOF", "R-COMMENT-DFA", "R-GENERATED", "R-PARSE-ERR"}, {}},
 	"C12": {{"R-END-MARKER", "R-COMMENT-DFA", "R-GENERATED", "R-KIND-EXH", "R-PARSE-ERR"}, {}},
